@@ -193,4 +193,219 @@ theorem worker_delay (s0 : State) (h0 : s0.pendingWorker = none) (ops : List Op)
   subst hx
   exact ⟨k, e, hop, hk, hw, pre, post, nc, e0, hops, by omega, hlast.symm⟩
 
+/-! ### Beneficiary: both the nominee and the current beneficiary (while its term is active) -/
+
+/-- the pending proposal of `s` names `(n, q, x)` -/
+def PendingIs (s : State) (n : Nat) (q x : Int) (p : PendingBen) : Prop :=
+  s.pendingBen = some p ∧ p.newBeneficiary = n ∧ p.newQuota = q ∧ p.newExpiration = x
+
+/-- `NomineeApproved s0 ops n q x`: the history contains a `ChangeBeneficiary(n, q, x)` sent by
+    the nominee `n` itself, and ever since the proposal `(n, q, x)` has been pending with the
+    nominee's approval recorded. -/
+def NomineeApproved (s0 : State) (ops : List Op) (n : Nat) (q x : Int) : Prop :=
+  Since s0 ops (fun _ op => ∃ e, op = Op.changeBeneficiary n n q x e true)
+    (fun _ t => ∃ p, PendingIs t n q x p ∧ p.approvedByNominee = true)
+
+/-- `BeneficiaryApproved s0 ops n q x`: the history contains a `ChangeBeneficiary(n, q, x)` sent
+    either by the account that was the beneficiary at that moment, or by the owner at an epoch at
+    which the current beneficiary's term had nothing available (expired, or quota used up); ever
+    since, the proposal `(n, q, x)` has been pending with the beneficiary's approval recorded and
+    the beneficiary has not changed. -/
+def BeneficiaryApproved (s0 : State) (ops : List Op) (n : Nat) (q x : Int) : Prop :=
+  Since s0 ops
+    (fun b op => ∃ c e, op = Op.changeBeneficiary c n q x e true ∧
+      (c = b.beneficiary ∨ (c = b.owner ∧ b.benTerm.available e = 0)))
+    (fun b t => (∃ p, PendingIs t n q x p ∧ p.approvedByBeneficiary = true) ∧
+      t.beneficiary = b.beneficiary)
+
+/-- One step: how a pending beneficiary proposal with given flags can arise.  Either it was
+    pending before with flags at most these, or this message is a `ChangeBeneficiary` naming it;
+    the nominee flag is new only if the caller is the nominee; the beneficiary flag is new only if
+    the caller is the current beneficiary, or the owner proposing while the term has nothing
+    available.  The beneficiary itself is unchanged while a proposal stays pending. -/
+theorem pendingBen_step (s : State) (op : Op) (n : Nat) (q x : Int) (p' : PendingBen)
+    (h : PendingIs (step s op).1 n q x p') :
+    (step s op).1.beneficiary = s.beneficiary ∧
+    (PendingIs s n q x p' ∨
+     ∃ c e, op = .changeBeneficiary c n q x e true ∧
+       (p'.approvedByNominee = true →
+          c = n ∨ (c ≠ s.owner ∧ ∃ p, PendingIs s n q x p ∧ p.approvedByNominee = true)) ∧
+       (p'.approvedByBeneficiary = true →
+          c = s.beneficiary ∨ (c = s.owner ∧ s.benTerm.available e = 0) ∨
+          (c ≠ s.owner ∧ ∃ p, PendingIs s n q x p ∧ p.approvedByBeneficiary = true))) := by
+  have he := step_effect s op
+  unfold PendingIs at h
+  generalize (step s op).1 = s' at he h
+  obtain ⟨hpb, hn, hq, hx⟩ := h
+  cases he with
+  | noChange => exact ⟨rfl, Or.inl ⟨hpb, hn, hq, hx⟩⟩
+  | proposeOwner => exact ⟨rfl, Or.inl ⟨hpb, hn, hq, hx⟩⟩
+  | confirmOwner => simp at hpb
+  | changeWorker => exact ⟨rfl, Or.inl ⟨hpb, hn, hq, hx⟩⟩
+  | applyWorker => exact ⟨rfl, Or.inl ⟨hpb, hn, hq, hx⟩⟩
+  | withdraw => exact ⟨rfl, Or.inl ⟨hpb, hn, hq, hx⟩⟩
+  | proposeBen new q' x' e hq' =>
+    rw [benFinish_spec _ _ _ _ rfl] at hpb ⊢
+    split at hpb
+    · simp at hpb
+    · rename_i hnot
+      rw [if_neg hnot]
+      simp only [Option.some.injEq] at hpb
+      subst hpb
+      simp only [proposal] at hn hq hx ⊢
+      subst hn; subst hq; subst hx
+      refine ⟨trivial, Or.inr ⟨s.owner, e, rfl, ?_, ?_⟩⟩
+      · intro hf; left; simpa using hf
+      · intro hf
+        simp only [Bool.or_eq_true, decide_eq_true_eq] at hf
+        rcases hf with hf | hf
+        · exact Or.inr (Or.inl ⟨rfl, hf⟩)
+        · exact Or.inl hf
+  | approveBen c p e hp hc hc2 =>
+    rw [benFinish_spec _ _ _ p hp] at hpb ⊢
+    split at hpb
+    · simp at hpb
+    · rename_i hnot
+      rw [if_neg hnot]
+      simp only [Option.some.injEq] at hpb
+      subst hpb
+      simp only at hn hq hx ⊢
+      subst hn; subst hq; subst hx
+      refine ⟨trivial, Or.inr ⟨c, e, rfl, ?_, ?_⟩⟩
+      · intro hf
+        simp only [Bool.or_eq_true, decide_eq_true_eq] at hf
+        rcases hf with hf | hf
+        · exact Or.inr ⟨hc, p, ⟨hp, rfl, rfl, rfl⟩, hf⟩
+        · exact Or.inl hf
+      · intro hf
+        simp only [Bool.or_eq_true, decide_eq_true_eq] at hf
+        rcases hf with hf | hf
+        · exact Or.inr (Or.inr ⟨hc, p, ⟨hp, rfl, rfl, rfl⟩, hf⟩)
+        · exact Or.inl hf
+
+/-- In every history from a state without a pending proposal: a recorded nominee approval was put
+    there by a message of the nominee itself. -/
+theorem nominee_flag_history (s0 : State) (h0 : s0.pendingBen = none) (ops : List Op) (n : Nat)
+    (q x : Int) (p : PendingBen) (h : PendingIs (run s0 ops) n q x p)
+    (hf : p.approvedByNominee = true) : NomineeApproved s0 ops n q x := by
+  refine since_of_steps (P := fun s => ∃ p, PendingIs s n q x p ∧ p.approvedByNominee = true)
+    ?_ (by simp [PendingIs, h0]) ops ⟨p, h, hf⟩
+  intro s op ⟨p', hp', hf'⟩
+  obtain ⟨_, h1 | ⟨c, e, hop, hnom, _⟩⟩ := pendingBen_step s op n q x p' hp'
+  · exact Or.inl ⟨⟨p', h1, hf'⟩, fun _ _ => ⟨p', hp', hf'⟩⟩
+  · rcases hnom hf' with hc | ⟨_, pp, hpp, hppf⟩
+    · subst hc; exact Or.inr ⟨⟨e, hop⟩, p', hp', hf'⟩
+    · exact Or.inl ⟨⟨pp, hpp, hppf⟩, fun _ _ => ⟨p', hp', hf'⟩⟩
+
+/-- In every history from a state without a pending proposal: a recorded beneficiary approval was
+    put there by a message of the then-beneficiary, or by the owner's proposal at an epoch when the
+    beneficiary's term had nothing available. -/
+theorem beneficiary_flag_history (s0 : State) (h0 : s0.pendingBen = none) (ops : List Op)
+    (n : Nat) (q x : Int) (p : PendingBen) (h : PendingIs (run s0 ops) n q x p)
+    (hf : p.approvedByBeneficiary = true) : BeneficiaryApproved s0 ops n q x := by
+  refine since_of_steps
+    (P := fun s => ∃ p, PendingIs s n q x p ∧ p.approvedByBeneficiary = true)
+    ?_ (by simp [PendingIs, h0]) ops ⟨p, h, hf⟩
+  intro s op ⟨p', hp', hf'⟩
+  obtain ⟨hben, h1 | ⟨c, e, hop, _, hb⟩⟩ := pendingBen_step s op n q x p' hp'
+  · exact Or.inl ⟨⟨p', h1, hf'⟩, fun b hb => ⟨⟨p', hp', hf'⟩, by rw [hben]; exact hb.2⟩⟩
+  · rcases hb hf' with hc | ⟨hc, hav⟩ | ⟨_, pp, hpp, hppf⟩
+    · exact Or.inr ⟨⟨c, e, hop, Or.inl hc⟩, ⟨p', hp', hf'⟩, hben⟩
+    · exact Or.inr ⟨⟨c, e, hop, Or.inr ⟨hc, hav⟩⟩, ⟨p', hp', hf'⟩, hben⟩
+    · exact Or.inl ⟨⟨pp, hpp, hppf⟩, fun b hb => ⟨⟨p', hp', hf'⟩, by rw [hben]; exact hb.2⟩⟩
+
+/-- One step: the beneficiary changes only (a) together with the owner, when the beneficiary *is*
+    the owner and the pending owner confirms, or (b) by a `ChangeBeneficiary(new, q, x)` after which
+    both approvals are present: the nominee's (this caller is `new`, or the flag was already
+    recorded on this very proposal) and the current beneficiary's (this caller is the beneficiary,
+    or the flag was already recorded, or this is the owner's proposal at an epoch where the current
+    term has nothing available).  The new term is `(q, 0, x)`. -/
+theorem beneficiary_change_step (s : State) (op : Op)
+    (h : (step s op).1.beneficiary ≠ s.beneficiary) :
+    (∃ p, op = .changeOwner p p true ∧ s.pendingOwner = some p ∧ s.beneficiary = s.owner ∧
+      (step s op).1.beneficiary = p ∧ (step s op).1.owner = p) ∨
+    (∃ c new q x e, op = .changeBeneficiary c new q x e true ∧
+      (step s op).1.beneficiary = new ∧
+      (step s op).1.benTerm = { quota := q, usedQuota := 0, expiration := x } ∧
+      (step s op).1.pendingBen = none ∧
+      (c = new ∨ (c ≠ s.owner ∧ ∃ p, PendingIs s new q x p ∧ p.approvedByNominee = true)) ∧
+      (c = s.beneficiary ∨ (c = s.owner ∧ s.benTerm.available e = 0) ∨
+        (c ≠ s.owner ∧ ∃ p, PendingIs s new q x p ∧ p.approvedByBeneficiary = true))) := by
+  have he := step_effect s op
+  generalize (step s op).1 = s' at he h
+  cases he with
+  | noChange => exact absurd rfl h
+  | proposeOwner => exact absurd rfl h
+  | changeWorker => exact absurd rfl h
+  | applyWorker => exact absurd rfl h
+  | withdraw => exact absurd rfl h
+  | confirmOwner p hp hne =>
+    left
+    by_cases hb : s.beneficiary = s.owner
+    · exact ⟨p, rfl, hp, hb, by simp [hb], rfl⟩
+    · simp [hb] at h
+  | proposeBen new q x e hq =>
+    right
+    rw [benFinish_spec _ _ _ _ rfl] at h ⊢
+    split
+    · rename_i hyes
+      rw [if_pos hyes] at h
+      simp only [proposal, Bool.or_eq_true, decide_eq_true_eq, Bool.false_or] at hyes
+      have hne : new ≠ s.beneficiary := fun e => h e
+      refine ⟨s.owner, new, q, x, e, rfl, rfl, by simp [proposal, hne], rfl, Or.inl hyes.2, ?_⟩
+      rcases hyes.1 with hav | hc
+      · exact Or.inr (Or.inl ⟨rfl, hav⟩)
+      · exact Or.inl hc
+    · rename_i hno
+      rw [if_neg hno] at h
+      exact absurd rfl h
+  | approveBen c p e hp hc hc2 =>
+    right
+    rw [benFinish_spec _ _ _ p hp] at h ⊢
+    split
+    · rename_i hyes
+      rw [if_pos hyes] at h
+      simp only [Bool.or_eq_true, decide_eq_true_eq] at hyes
+      have hne : p.newBeneficiary ≠ s.beneficiary := fun e => h e
+      refine ⟨c, _, _, _, e, rfl, rfl, by simp [hne], rfl, ?_, ?_⟩
+      · rcases hyes.2 with hf | hcn
+        · exact Or.inr ⟨hc, p, ⟨hp, rfl, rfl, rfl⟩, hf⟩
+        · exact Or.inl hcn
+      · rcases hyes.1 with hf | hcb
+        · exact Or.inr (Or.inr ⟨hc, p, ⟨hp, rfl, rfl, rfl⟩, hf⟩)
+        · exact Or.inl hcb
+    · rename_i hno
+      rw [if_neg hno] at h
+      exact absurd rfl h
+
+/-- **beneficiary_two_sided.** In every history that starts without a pending proposal: a message
+    changes the beneficiary only if either (a) the beneficiary is the owner and ownership is handed
+    over in this very message (the beneficiary follows the owner), or (b) it is a
+    `ChangeBeneficiary(new, q, x)` and both sides have approved exactly this proposal: the nominee
+    `new` — by this message or by an earlier message of its own — and the current beneficiary — by
+    this message, or by an earlier message of its own, or waived because the owner proposed at an
+    epoch at which the current term had nothing available (expired or quota used up). -/
+theorem beneficiary_two_sided (s0 : State) (h0 : s0.pendingBen = none) (ops : List Op) (op : Op)
+    (h : (step (run s0 ops) op).1.beneficiary ≠ (run s0 ops).beneficiary) :
+    (∃ p, op = .changeOwner p p true ∧ (run s0 ops).pendingOwner = some p ∧
+      (run s0 ops).beneficiary = (run s0 ops).owner ∧
+      (step (run s0 ops) op).1.beneficiary = p ∧ (step (run s0 ops) op).1.owner = p) ∨
+    (∃ c new q x e, op = .changeBeneficiary c new q x e true ∧
+      (step (run s0 ops) op).1.beneficiary = new ∧
+      (step (run s0 ops) op).1.benTerm = { quota := q, usedQuota := 0, expiration := x } ∧
+      (c = new ∨ NomineeApproved s0 ops new q x) ∧
+      (c = (run s0 ops).beneficiary ∨
+        (c = (run s0 ops).owner ∧ (run s0 ops).benTerm.available e = 0) ∨
+        BeneficiaryApproved s0 ops new q x)) := by
+  rcases beneficiary_change_step _ _ h with h1 | ⟨c, new, q, x, e, hop, hb, ht, _, hn, hbn⟩
+  · exact Or.inl h1
+  · refine Or.inr ⟨c, new, q, x, e, hop, hb, ht, ?_, ?_⟩
+    · rcases hn with hn | ⟨_, p, hp, hf⟩
+      · exact Or.inl hn
+      · exact Or.inr (nominee_flag_history s0 h0 ops new q x p hp hf)
+    · rcases hbn with hbn | hbn | ⟨_, p, hp, hf⟩
+      · exact Or.inl hbn
+      · exact Or.inr (Or.inl hbn)
+      · exact Or.inr (Or.inr (beneficiary_flag_history s0 h0 ops new q x p hp hf))
+
 end BA.MinerControl
